@@ -538,3 +538,46 @@ class Check:
                  len(set(k["id"] for _, _, k in knowns)), len(inconclusive), time.time() - self.t0, rc))
         if not os.environ.get("VERIF_KEEP"):
             shutil.rmtree(self.dir, ignore_errors=True)
+
+
+def replay_dir(prop, path):
+    """Re-run the concrete playback tests stored with a VIOLATION against /repo's current working tree.
+    Exit 1 if a test still fails with a real panic (violation reproduces), 0 if none does, 2 on build problems."""
+    import glob
+    src = os.path.join(path, "harness_with_playback_tests.rs")
+    if not os.path.exists(src):
+        print("no harness_with_playback_tests.rs in", path)
+        return 2
+    txt = open(src).read()
+    # which module does the harness belong to?  (recorded in the README written with the replay)
+    readme = open(os.path.join(path, "README.txt")).read() if os.path.exists(os.path.join(path, "README.txt")) else ""
+    m = re.search(r"src/verif_harness_(\w+)\.rs", readme)
+    module = m.group(1) if m else "worker"
+    c = Check(prop, "quick", [])
+    c.insts = [Inst("replay", module, "", "replay", {})]
+    c.dir = os.path.join(WORK, "replay-%s-%d" % (prop, os.getpid()))
+    c.crate = os.path.join(c.dir, "crate"); c.target = os.path.join(c.dir, "target"); c.logs = os.path.join(c.dir, "logs")
+    c.prepare()
+    # the stored file already contains template + instances + generated tests; use it for its module
+    open(os.path.join(c.crate, "src", "verif_harness_%s.rs" % module), "w").write(txt)
+    names = re.findall(r"fn (kani_concrete_playback_\w+)", txt)
+    feats = ",".join(c.features + ["verif_replay"]) if "client" not in txt else "verif,client,verif_replay"
+    rc_all = 0
+    for nm in names:
+        cmd = ["cargo", "kani", "playback", "-Z", "concrete-playback", "--lib", "--features", feats, "--", "--test-threads=1", nm]
+        rc, out, dt = sh(cmd, cwd=c.crate, env=base_env(c.target), timeout=900)
+        if "running " not in out:
+            print("build failed for", nm)
+            print("\n".join(l for l in out.splitlines() if l.startswith("error"))[:2000])
+            rc_all = max(rc_all, 2)
+            continue
+        panics = [(l, m_) for l, m_ in re.findall(r"panicked at (.*?):\n(.*?)\n", out)
+                  if "VERIF-CUT" not in m_ and "should always hold" not in m_ and "Not enough det vals" not in m_]
+        for l, m_ in panics:
+            print("REPRODUCED %s: %s (%s)" % (nm, m_[:200], l))
+        if panics and rc_all != 2:
+            rc_all = 1
+    if rc_all == 0:
+        print("no stored counterexample reproduces on the current tree")
+    shutil.rmtree(c.dir, ignore_errors=True)
+    return rc_all
